@@ -157,4 +157,68 @@ theorem uninstall_success_purges (fl : UninstallFlags) (l : Ledger) (rel : Rec)
   rw [hres]
   exact ⟨rfl, hempty⟩
 
+/-- The same from any state of the storage wrapper with no scripted decisions left (the uninstall
+that an atomic install runs on failure starts from the state the failure left).
+A fault-free uninstall without keep-history of a release that is not already uninstalled:
+success, and no revision remains. -/
+theorem uninstallOn_success_purges (fl : UninstallFlags) (s0 : St) (l : Ledger) (hs0 : s0.ledger = l) (hd0 : s0.decs = [])
+    (rel : Rec)
+    (hdry : fl.dryRun = false) (hkeep : fl.keepHistory = false) (hnd : (revs l).Nodup)
+    (hlast : last? l = some rel) (hnu : rel.status ≠ .uninstalled) :
+    (uninstallOn fl {} s0).2 = .success ∧ (uninstallOn fl {} s0).1.ledger = [] := by
+  obtain ⟨hrm, _⟩ := last?_spec hlast
+  let nh := if fl.disableHooks then 0 else fl.nHooks
+  let relU : Rec := { rel with status := .uninstalling }
+  have hr0 : relU.rev ∈ revs s0.ledger := by rw [hs0]; exact List.mem_map.mpr ⟨rel, hrm, rfl⟩
+  obtain ⟨h1a, h1b, h1c⟩ := hookPhase_sets relU nh s0 hd0 hr0 (by rw [hs0]; exact hnd)
+  let s1 : St := (hookPhase s0 relU nh .ok).2
+  have hs1 : hookPhase s0 relU nh .ok = (.ok, s1) := Prod.ext h1a rfl
+  have hrevs1 : revs s1.ledger = revs l := by
+    show revs (hookPhase s0 relU nh .ok).2.ledger = revs l
+    rw [h1c]; split
+    · rw [hs0]
+    · rw [revs_update, hs0]
+  have hr0l : relU.rev ∈ revs l := List.mem_map.mpr ⟨rel, hrm, rfl⟩
+  have hu2 := stUpdate_ok s1 relU h1b (by rw [hrevs1]; exact hr0l)
+  let s2 : St := (stUpdate s1 relU).2
+  have hs2 : stUpdate s1 relU = (.ok, s2) := Prod.ext (by rw [hu2]) rfl
+  have hs1d : s1.decs = [] := h1b
+  have hs2d : s2.decs = [] := by simp [s2, hu2, hs1d]
+  have hrevs2 : revs s2.ledger = revs l := by
+    have : s2.ledger = s1.ledger.map (fun x => if x.rev = relU.rev then relU else x) := by simp [s2, hu2]
+    rw [this, revs_update, hrevs1]
+  obtain ⟨h3a, h3b, h3c⟩ := hookPhase_sets relU nh s2 hs2d (by rw [hrevs2]; exact hr0l) (by rw [hrevs2]; exact hnd)
+  let s3 : St := (hookPhase s2 relU nh .ok).2
+  have hs3 : hookPhase s2 relU nh .ok = (.ok, s3) := Prod.ext h3a rfl
+  have hrevs3 : revs s3.ledger = revs l := by
+    show revs (hookPhase s2 relU nh .ok).2.ledger = revs l
+    rw [h3c]; split
+    · exact hrevs2
+    · rw [revs_update]; exact hrevs2
+  -- purge everything
+  have hpn : (revsAsc s3.ledger).Nodup := by
+    unfold revsAsc; apply sortAsc_nodup; show (revs s3.ledger).Nodup; rw [hrevs3]; exact hnd
+  obtain ⟨h4a, _, h4c⟩ := purge_ok (revsAsc s3.ledger) s3 h3b hpn (fun r hr => (mem_revsAsc _ r).mp hr)
+  have hempty : (purge (revsAsc s3.ledger) s3).2.ledger = [] := by
+    rw [h4c]
+    apply List.filter_eq_nil_iff.mpr
+    intro x hx
+    have : x.rev ∈ revsAsc s3.ledger := (mem_revsAsc _ _).mpr (List.mem_map.mpr ⟨x, hx, rfl⟩)
+    simp [this]
+  have hs1' : hookPhase s0 { rel with status := .uninstalling } (if fl.disableHooks then 0 else fl.nHooks) .ok = (.ok, s1) := hs1
+  have hs2' : stUpdate s1 { rel with status := .uninstalling } = (.ok, s2) := hs2
+  have hs3' : hookPhase s2 { rel with status := .uninstalling } (if fl.disableHooks then 0 else fl.nHooks) .ok = (.ok, s3) := hs3
+  have hres : uninstallOn fl {} s0 = ((purge (revsAsc s3.ledger) s3).2, .success) := by
+    unfold uninstallOn
+    simp only [hs0, hdry, hlast, hnu, hkeep, Bool.false_eq_true, if_false, hs1', hs2', hs3', Bool.not_false, if_true]
+    cases hp : purge (revsAsc s3.ledger) s3 with
+    | mk d s4 =>
+      rw [hp] at h4a
+      simp only at h4a
+      subst h4a
+      simp
+  rw [hres]
+  exact ⟨rfl, hempty⟩
+
+
 end Helm.Ledger
